@@ -19,12 +19,18 @@ RECURSIVE FindRec(_,_,_)
 FindRec(s, sub, p) ==
   IF p + Len(sub) - 1 > Len(s) THEN 0
   ELSE IF MatchAt(s, sub, p, 1) THEN p ELSE FindRec(s, sub, p + 1)
-(* the same function without recursion: TLC recursing once per byte needs 20 s for an 8 KiB line, the
-   comprehension none; on the short sequences of the model-checking configurations the recursion is faster *)
-FindSet(s, sub, p) ==
-  LET S == {i \in p..(Len(s) - Len(sub) + 1) : MatchAt(s, sub, i, 1)} IN
-  IF S = {} THEN 0 ELSE CHOOSE i \in S : \A j \in S : i <= j
-Find(s, sub, p) == IF Len(s) - p < 256 THEN FindRec(s, sub, p) ELSE FindSet(s, sub, p)
+(* the same function with one recursion step per window of k, 2k, 4k, ... positions instead of one per byte (TLC recursing
+   once per byte needs 20 s to find the end of an 8 KiB line; windows make it instantaneous and, unlike one
+   comprehension over the whole rest, stop at the first match); MC_Split checks FindRec = FindWin for k = 1, 2, 3 *)
+RECURSIVE FindWin(_,_,_,_)
+FindWin(s, sub, p, k) ==
+  LET last == Len(s) - Len(sub) + 1
+      hi == IF p + k - 1 < last THEN p + k - 1 ELSE last
+      S == {i \in p..hi : MatchAt(s, sub, i, 1)} IN
+  IF p > last THEN 0
+  ELSE IF S # {} THEN CHOOSE i \in S : \A j \in S : i <= j
+  ELSE FindWin(s, sub, hi + 1, IF k < 1024 THEN 2 * k ELSE k)          \* windows grow: work ~ 2 x distance
+Find(s, sub, p) == IF Len(s) - p < 64 THEN FindRec(s, sub, p) ELSE FindWin(s, sub, p, 8)
 
 EndsWith(s, suf) == Len(suf) <= Len(s) /\ SubSeq(s, Len(s) - Len(suf) + 1, Len(s)) = suf
 StartsWith(s, pre) == Len(pre) <= Len(s) /\ SubSeq(s, 1, Len(pre)) = pre
